@@ -233,6 +233,7 @@ var c02Operators = []string{
 	"none", "root-add-principal", "root-rotate", "root-threshold-2", "root-signed-by-new-only", "root-signed-by-foreign", "root-unsigned",
 	"targets-resigned-untrusted", "targets-unsigned", "targets-bump", "targets-lower", "root-bump", "root-lower",
 	"add-delegated", "add-delegated-badsig", "drop-delegated", "orphan-delegated", "delegated-lower", "delegated-bump", "redefine-principal", "change-main-rule",
+	"add-delegated-b", "swap-delegated", "swap-delegated",
 }
 
 // mutate applies one operator to the successor spec.
@@ -294,6 +295,25 @@ func c02Mutate(rt *rapid.T, s *kit.PolicySpec, op string) {
 			f.Signers = []int{rapid.SampledFrom([]int{3, wgUnknownKey, 12}).Draw(rt, "badsig")}
 		}
 		s.Delegated["team-a"] = f
+	case "add-delegated-b":
+		if s.Delegated == nil {
+			s.Delegated = map[string]kit.FileSpec{}
+		}
+		s.Delegated["team-b"] = kit.FileSpec{Signers: []int{3}, Principals: []kit.PrincipalSpec{keyPrin(5)},
+			Rules: []kit.RuleSpec{{Name: "team-b-sub", Patterns: []string{"git:refs/heads/b/x"}, Principals: []int{0}, Threshold: 1}}}
+	case "swap-delegated":
+		// one rule file disappears while another, validly signed and reachable, appears:
+		// the number of rule files does not go down
+		_, hasA := s.Delegated["team-a"]
+		_, hasB := s.Delegated["team-b"]
+		switch {
+		case hasA && !hasB:
+			delete(s.Delegated, "team-a")
+			c02Mutate(rt, s, "add-delegated-b")
+		case hasB && !hasA:
+			delete(s.Delegated, "team-b")
+			c02Mutate(rt, s, "add-delegated")
+		}
 	case "drop-delegated":
 		for name := range s.Delegated {
 			delete(s.Delegated, name)
@@ -496,6 +516,6 @@ func TestC02(t *testing.T) {
 		kit.DoReplay(s, t, rf, run)
 		return
 	}
-	s.SetRule("rapid: chains of 2-5 policy states, each successor produced from its predecessor by 1-2 of 21 mutation operators (add/rotate root principals, raise the root threshold, sign the root with old / new-only / foreign / no keys, re-sign or unsign the primary rule file, bump/lower root, primary and delegated versions, add (well or badly signed) / drop / orphan delegated files, redefine a principal id inside a delegated file, change the rule for main), written with raw commits plus a policy entry (what anyone with push access can record); 0-2 authorised pushes to main after every state. Oracle: the validity conditions (a)-(e) of the property evaluated on the abstract states; each of VerifyRefFull, VerifyRef, VerifyRefFromEntry, VerifyMergeable (on an unprotected ref) and LoadCurrentState must reject when a state it depends on breaks a condition and accept when all hold. Non-trivial: some mode's dependency is broken, or the root is rotated/extended")
+	s.SetRule("rapid: chains of 2-5 policy states, each successor produced from its predecessor by 1-2 of 23 mutation operators (add/rotate root principals, raise the root threshold, sign the root with old / new-only / foreign / no keys, re-sign or unsign the primary rule file, bump/lower root, primary and delegated versions, add (well or badly signed) / drop / orphan delegated files, replace one delegated file by another in one step, redefine a principal id inside a delegated file, change the rule for main), written with raw commits plus a policy entry (what anyone with push access can record); 0-2 authorised pushes to main after every state. Oracle: the validity conditions (a)-(e) of the property evaluated on the abstract states; each of VerifyRefFull, VerifyRef, VerifyRefFromEntry, VerifyMergeable (on an unprotected ref) and LoadCurrentState must reject when a state it depends on breaks a condition and accept when all hold. Non-trivial: some mode's dependency is broken, or the root is rotated/extended")
 	kit.Campaign(s, t, "chains", "chain", s.Budget(10_000, 300_000), genC02, run)
 }
